@@ -23,7 +23,10 @@ CONSTANTS Svcs,        \* rate limited services
           Burst,       \* bucket size (4 in the code)
           Q,           \* sub-units per Interval / per token
           Steps,       \* Steps[s] : [kind -> Seq({"E","A","R"})]
-          MaxT         \* bound on the clock for TLC
+          MaxT,        \* bound on the clock for TLC
+          Deviations   \* model regressions: "racy_first_use" - a request that finds a FULL bucket (possibly the
+                       \* source's very first: the server handles every datagram in its own goroutine) pays from a
+                       \* private bucket of its own instead of the source's one (check-then-act on the bucket table)
 
 VARIABLES tokens,      \* tokens[s][i] in 0..Burst*Q   (sub-units)
           now,         \* clock in sub-units of Interval
@@ -57,7 +60,7 @@ Rep(x, n) == IF n = 0 THEN <<>> ELSE <<x>> \o Rep(x, n - 1)
 
 Request(s, i, p, k) ==
   LET r == Exec(Steps[s][k], tokens[s][i], 0, 0) IN
-  /\ tokens' = [tokens EXCEPT ![s][i] = r.tok]
+  /\ tokens' = IF "racy_first_use" \in Deviations /\ tokens[s][i] = Burst * Q THEN tokens ELSE [tokens EXCEPT ![s][i] = r.tok]
   /\ replies' = [replies EXCEPT ![s][i] = @ \o Rep(now, r.rep)]
   /\ last' = [s |-> s, i |-> i, ev |-> r.ev, rep |-> r.rep]
   /\ UNCHANGED now
